@@ -19,19 +19,21 @@ DISPATCH_NAMES = {0: 'scales.MessageDispatcher.dispatch_messages',
                   3: 'scales.MessageDispatcher.request_latency'}
 
 TRUSTED = ['harness substitutes VarzReceiver.VARZ_PERCENTILES by Fractions, _MAX_PERCENTILE_SIZE by the '
-           'generated cap and scales.varz.random by a scripted draw',
+           'generated cap, scales.varz.random by a scripted draw and scales.varz.LOW_RESOLUTION_TIME_SOURCE by a '
+           'clock the script sets (whole seconds)',
            'dispatcher leg: the mapping "one call = dispatch_messages+1, request_latency sample, '
            'success|exception_messages+1" (harness/props/c18.py) is read off scales/dispatch.py by hand']
 ASSUMPTIONS = ['integer amounts and samples; |sums| < 2^53 so the float accumulator of Aggregate is exact',
                'percentiles are fractions p/q with 0 <= p <= q (the shipped list is of that form)',
-               'no reservoir is older than MAX_AGG_AGE (virtual time does not advance)',
+               'LOW_RESOLUTION_TIME_SOURCE.now takes whole-second values given by the script',
                'percentile metrics are aggregated with one source per (service, client) key; the float '
                'down-sampling of several reservoirs and the float mean are not compared',
                'every metric is used through the entry point of its type']
 RULE = ('scripts drawn from the seeded generator (update sequences, sample streams, dispatcher runs); '
         'distinct = distinct (cfg, op list); non-trivial = an equal Source is constructed again for the same '
-        'metric, or two different sources share an aggregation key, or a reservoir overflows, or the run goes '
-        'through the real MessageDispatcher')
+        'metric, or two different sources share an aggregation key, or a reservoir overflows, or a reservoir is '
+        'aggregated when its last retained sample is MAX_AGG_AGE old or older, or the run goes through the real '
+        'MessageDispatcher')
 
 
 # ------------------------------------------------------------------ generation
@@ -51,12 +53,17 @@ def _gen_source(rng):
             rng.choice([None, None, 0])]
 
 
+STEPS = [0, 0, 0, 0, 0, 1, 7, 100, 150, 299, 300, 301, 1000]
+
+
 def gen_script(rng, tier):
     r = rng.random()
     if r < 0.12:
         return gen_dispatch(rng, tier)
-    if r < 0.40:
+    if r < 0.30:
         return gen_stream(rng, tier)
+    if r < 0.45:
+        return gen_stale(rng, tier)
     nm = rng.randrange(1, 5)
     metrics = [[i, rng.choice(TYPES)] for i in range(nm)]
     cap = rng.choice([1, 2, 3, 5, 1000])
@@ -70,21 +77,23 @@ def gen_script(rng, tier):
             seen.add((s[1], s[3]))
             uniq.append(s)
     ops = []
+    now = rng.choice([0, 0, 5, 1000])
     n = rng.randrange(3, 200 if tier == 'thorough' else 50)
     for _ in range(n):
         x = rng.random()
         m, t = rng.choice(metrics)
+        now += rng.choice(STEPS)
         if x < 0.08:
-            ops.append(['agg', sorted(rng.sample(range(nm), rng.randrange(1, nm + 1)))])
+            ops.append(['agg', sorted(rng.sample(range(nm), rng.randrange(1, nm + 1))), now])
         elif x < 0.2 and t not in ('avgTimer', 'avgRate'):
             ops.append(['get', m, list(rng.choice(pool))])
         elif t == 'gauge':
             ops.append(['set', m, list(rng.choice(pool)), rng.randrange(-50, 1000)])
         elif t in ('avgTimer', 'avgRate'):
-            ops.append(['sample', m, list(rng.choice(uniq)), rng.randrange(-5, 2000), rng.random() < 0.5])
+            ops.append(['sample', m, list(rng.choice(uniq)), rng.randrange(-5, 2000), rng.random() < 0.5, now])
         else:
             ops.append(['inc', m, list(rng.choice(pool)), rng.choice([1, 1, 1, -1, 0, rng.randrange(-1000, 100000)])])
-    ops.append(['agg', list(range(nm))])
+    ops.append(['agg', list(range(nm)), now + rng.choice(STEPS)])
     return {'kind': 'direct', 'metrics': metrics, 'cap': cap, 'pcts': _gen_pcts(rng), 'ops': ops}
 
 
@@ -97,11 +106,42 @@ def gen_stream(rng, tier):
     srcs = [[0, 0, 0, None]] + ([[0, 1, 0, None]] if rng.random() < 0.3 else [])
     spread = rng.choice([1, 3, 1000, 10 ** 6])
     ops = []
+    now = 0
+    slow = rng.random() < 0.3
     for _ in range(n):
-        ops.append(['sample', 0, list(rng.choice(srcs)), rng.randrange(0, spread + 1), rng.random() < 0.5])
+        if slow:
+            now += rng.choice([0, 0, 1, 30])
+        ops.append(['sample', 0, list(rng.choice(srcs)), rng.randrange(0, spread + 1), rng.random() < 0.5, now])
         if rng.random() < 0.05:
-            ops.append(['agg', [0]])
-    ops.append(['agg', [0]])
+            ops.append(['agg', [0], now])
+    ops.append(['agg', [0], now + rng.choice([0, 0, 1, 299, 300])])
+    return {'kind': 'direct', 'metrics': [[0, rng.choice(['avgTimer', 'avgRate'])]], 'cap': cap,
+            'pcts': _gen_pcts(rng), 'ops': ops}
+
+
+def gen_stale(rng, tier):
+    """fill a reservoir past its cap, then cross the MAX_AGG_AGE boundary while the source keeps
+    recording (retained and dropped samples) or stays idle, then aggregate"""
+    cap = rng.choice([1, 2, 3, 5, 8, rng.choice([64, 64, 1000]) if tier == 'thorough' else 16])   # the shipped 1000 is also in the corpus
+    srcs = [[0, 0, 0, None]] + ([[1, 1, None, None]] if rng.random() < 0.4 else [])
+    base = rng.choice([1, 10, 1000])
+    ops = []
+    now = rng.choice([0, 7, 100000])
+    for s in srcs:                                   # fill past the cap at the start time
+        for _ in range(cap + rng.randrange(0, 4)):
+            ops.append(['sample', 0, list(s), base + rng.randrange(0, 50), rng.random() < 0.5, now])
+    for _ in range(rng.randrange(1, 4)):             # phases
+        mode = rng.choice(['busy', 'busy', 'idle', 'dropped-only'])
+        step = rng.choice([60, 100, 149, 150, 299, 300, 301])
+        for _ in range(rng.randrange(1, 5)):
+            now += step
+            if mode != 'idle':
+                s = srcs[0] if len(srcs) == 1 or rng.random() < 0.7 else srcs[1]
+                keep = False if mode == 'dropped-only' else rng.random() < 0.7
+                ops.append(['sample', 0, list(s), base + rng.randrange(0, 50), keep, now])
+            if rng.random() < 0.4:
+                ops.append(['agg', [0], now + rng.choice([0, 1, 299, 300])])
+    ops.append(['agg', [0], now + rng.choice([0, 0, 1, 150, 299, 300, 301])])
     return {'kind': 'direct', 'metrics': [[0, rng.choice(['avgTimer', 'avgRate'])]], 'cap': cap,
             'pcts': _gen_pcts(rng), 'ops': ops}
 
@@ -141,6 +181,15 @@ def shrink(script):
 
 
 # ------------------------------------------------------------------ running the real code
+class _Clock(object):
+    """stands for scales.varz.LOW_RESOLUTION_TIME_SOURCE: `now` is set by the script"""
+    def __init__(self):
+        self.now = 0
+
+    def Get(self):
+        return self.now
+
+
 class _Draw(object):
     """stands for the `random` module inside scales.varz: the reservoir's draw is scripted"""
     def __init__(self):
@@ -195,7 +244,8 @@ def run_script(script):
     def nser(m):
         return ['n', len(VarzReceiver.VARZ_DATA.get(names[m], {}))]
 
-    def aggregate(ms):
+    def aggregate(ms, now=0):
+        clock.now = now
         sel = {names[m]: TYPE_CODE[mtype[m]] for m in ms if m in mtype}
         out = VarzAggregator.Aggregate(VarzReceiver.VARZ_DATA, sel)
         rev = {v: k for k, v in names.items()}
@@ -210,8 +260,10 @@ def run_script(script):
                     for s, cell in VarzReceiver.VARZ_DATA[mname].items():
                         if (s.service, s.client_id) == key and hasattr(cell, 'data'):
                             retained += [exact_int(x) for x in cell.data]
-                    if a.count == 1:
+                    if a.count <= 1:
                         vals = [exact_int(Fraction(v) * q) for v, (p, q) in zip(a.total[1:], pcts)]
+                        if a.count == 0:
+                            tags.add('stale-reservoir')
                     else:
                         vals = []
                         tags.add('multi-source-percentile')
@@ -223,26 +275,31 @@ def run_script(script):
         return res
 
     saved = (dict(VarzReceiver.VARZ_METRICS), VarzReceiver.VARZ_PERCENTILES,
-             VarzReceiver._MAX_PERCENTILE_SIZE, varz.random)
+             VarzReceiver._MAX_PERCENTILE_SIZE, varz.random, varz.LOW_RESOLUTION_TIME_SOURCE)
     draw = _Draw()
+    clock = _Clock()
+    varz.LOW_RESOLUTION_TIME_SOURCE = clock
     VarzReceiver.VARZ_DATA.clear()
     VarzReceiver.VARZ_PERCENTILES = [Fraction(p, q) for p, q in pcts]
     VarzReceiver._MAX_PERCENTILE_SIZE = cap
     varz.random = draw
     try:
         if not dispatch:
-            used, keys, nsamp = {}, {}, {}
+            used, keys, nsamp, first = {}, {}, {}, {}
             for op in script['ops']:
                 k = op[0]
                 if k == 'agg':
+                    now = op[2] if len(op) > 2 else 0
                     try:
-                        real = vfmt(aggregate(op[1]))
+                        real = vfmt(aggregate(op[1], now))
                     except Exception as ex:      # the implementation raised: an observation like any other
                         real = vfmt(['raised', type(ex).__name__])
                         tags.add('raised')
-                    steps.append([vfmt(['agg', list(op[1])])[1:-1], real])
+                    steps.append([vfmt(['agg', list(op[1]), now])[1:-1], real])
                     continue
                 m, src = op[1], op[2]
+                if k == 'sample':
+                    op = list(op[:5]) + [op[5] if len(op) > 5 else 0]
                 if m not in mtype:
                     steps.append([vfmt([k, m, list(src)] + list(op[3:]))[1:-1], 'bad'])
                     continue
@@ -274,10 +331,14 @@ def run_script(script):
                         tags.add('gauge')
                     else:
                         draw.keep = bool(op[4])
+                        clock.now = op[5]
                         VarzReceiver.RecordPercentileSample(mk(src), names[m], op[3])
                         nsamp[(m, t)] = nsamp.get((m, t), 0) + 1
+                        first.setdefault((m, t), op[5])
                         if nsamp[(m, t)] > cap:
                             tags.add('overflow')
+                            if op[4] and op[5] - first[(m, t)] >= 300:
+                                tags.add('retained-after-full-past-max-age')
                     real = vfmt(nser(m))
                 except Exception as ex:
                     real = vfmt(['raised', type(ex).__name__])
@@ -289,12 +350,13 @@ def run_script(script):
     finally:
         VarzReceiver.VARZ_METRICS.clear()
         VarzReceiver.VARZ_METRICS.update(saved[0])
-        VarzReceiver.VARZ_PERCENTILES, VarzReceiver._MAX_PERCENTILE_SIZE, varz.random = saved[1:]
+        (VarzReceiver.VARZ_PERCENTILES, VarzReceiver._MAX_PERCENTILE_SIZE, varz.random,
+         varz.LOW_RESOLUTION_TIME_SOURCE) = saved[1:]
         VarzReceiver.VARZ_DATA.clear()
     errs = rt.take_errors()
     if errs:
         tags.add('hub-error')
-        steps.append(['agg ()', vfmt(['raised', errs[0][0]])])
+        steps.append(['agg () 0', vfmt(['raised', errs[0][0]])])
     return {'comp': COMPONENT, 'cfg': cfg, 'steps': steps, 'tags': sorted(tags)}
 
 
@@ -363,7 +425,7 @@ def _run_dispatch(script, rt, steps, tags, nser, aggregate):
         src0 = [method, svc, None, None]
         src1 = [method, svc, ep, None]
         steps.append([vfmt(['inc', 0, src0, 1])[1:-1], vfmt(nser(0))])
-        steps.append([vfmt(['sample', 3, src1, delay_ms * 1000, True])[1:-1], vfmt(nser(3))])
+        steps.append([vfmt(['sample', 3, src1, delay_ms * 1000, True, 0])[1:-1], vfmt(nser(3))])
         which = 1 if ok else 2
         steps.append([vfmt(['inc', which, src1, 1])[1:-1], vfmt(nser(which))])
         if n > 1:
@@ -371,10 +433,11 @@ def _run_dispatch(script, rt, steps, tags, nser, aggregate):
         if as_obj and ep is not None:
             tags.add('endpoint-object')
         if n % script.get('agg_every', 1000) == 0:
-            steps.append(['agg (0 1 2)', vfmt(aggregate([0, 1, 2]))])
-    steps.append(['agg (0 1 2)', vfmt(aggregate([0, 1, 2]))])
+            steps.append(['agg (0 1 2) 0', vfmt(aggregate([0, 1, 2]))])
+    steps.append(['agg (0 1 2) 0', vfmt(aggregate([0, 1, 2]))])
 
 
 def nontrivial(case):
     t = set(case.get('tags', []))
-    return bool(t & {'equal-source-reuse', 'shared-key', 'overflow', 'dispatch'})
+    return bool(t & {'equal-source-reuse', 'shared-key', 'overflow', 'dispatch', 'stale-reservoir',
+                     'retained-after-full-past-max-age'})
